@@ -17,8 +17,11 @@ data are abstract):
     range of the lift (C10) vec_znx_idft(vec_znx_dft(a)) returns a for every int64 a;
  M  module level: ntt120_vec_znx_dft / idft / idft_tmp_a write exactly res_size limbs, limb i depends only on input limb
     i, limbs beyond the input are zero, and idft leaves a_dft unwritten (C16/C18/C11 clauses, re-checked here for NTT120).
-Box: n = 1..64 (quick), ..512 (thorough).  NOT covered: n above the box (in particular the switch from level-by-level to
-block-by-block scheduling at n = 1024) beyond the memory-contract and table-bound checks of C11."""
+ S  large dimensions (including the switch from level-by-level to block-by-block scheduling): n = 128, 1024, 2048
+    (quick), 1024..8192 (thorough): the transform and its inverse are instantiated in full; for nine sampled outputs
+    per prime the linear form is extracted; the inverse's row 1 yields all n points psi_i^-1 (distinct, roots of
+    X^n+1); every sampled inverse row is n^-1 * psi_i^-j and every sampled forward row is psi_j^i with the same points.
+Box for the full-matrix clauses A-D: n = 1..64 (quick), ..512 (thorough).  No-wrap for n up to 65536: C04."""
 import re
 
 from .. import ctx
@@ -139,6 +142,117 @@ def ntt_algebra(L, R, qs, tier):
     return nchk
 
 
+# ---------------------------------------------------------------------------------------------------------------------
+# S  large dimensions (block-by-block scheduling above CHANGE_MODE_N): the whole transform is instantiated symbolically,
+#    linear forms are extracted for a sample of rows only.
+def _sample(n):
+    return sorted({0, 1, 2, n // 3, n // 2 - 1, n // 2, (2 * n) // 3, n - 2, n - 1})
+
+
+def sampled_rows(L, qs, n):
+    """returns (error or None, rows checked)"""
+    nchk = 0
+    I = Intervals(lambda nm, off, size: (0, (1 << (8 * size)) - 1), fmt)
+
+    def bound(t):
+        r_ = I.ev_all([t])[0]
+        return r_[1] if r_ is not None and r_[0] >= 0 else None
+
+    stores = {}
+    for which in ('ntt', 'intt'):
+        c = Ctx(L, 'accel', expand=True, trusted=TRUSTED, values=True)
+        pre = c.construct('q120_new_%s_bb_precomp' % which, [n])
+        data = c.buf('data', 32 * n, 'inout')
+        st, _, _ = c.run('q120_%s_bb_avx2' % which, [pre, data])
+        del c.m.events[:]
+        if st != 'ok':
+            return '%s call %s' % (which, st), nchk
+        stores[which] = dict(getattr(data.obj, 'vstore', {}))
+    js = _sample(n)
+    for k in range(4):
+        q = qs[k]
+        mp = ModPoly(q, None, bound)
+        for which in ('intt', 'ntt'):
+            S = stores[which]
+            miss = [j for j in js if 32 * j + 8 * k not in S]
+            if miss:
+                return '%s: output %d not written' % (which, miss[0]), nchk
+            ps = mp.of_many([S[32 * j + 8 * k][1] for j in js])
+            rows, err = linear_rows(mp, ps, n, k)
+            if err:
+                return '%s prime %d: %s' % (which, k + 1, err), nchk
+            nchk += len(rows)
+            if which == 'intt':
+                # row 1 of the inverse gives n^-1 * psi_i^-1 for every i: the full list of evaluation points
+                ninv = pow(n, -1, q)
+                r1 = rows[js.index(1)]
+                ipsi = [r1.get(i, 0) * n % q for i in range(n)]
+                if len(set(ipsi)) != n:
+                    return 'intt prime %d: the points read off inverse row 1 are not distinct' % (k + 1), nchk
+                for i in (0, 1, n // 2, n - 1):
+                    if pow(ipsi[i], n, q) != q - 1:
+                        return 'intt prime %d: point %d is not a root of X^n+1' % (k + 1, i), nchk
+                for j, row in zip(js, rows):
+                    for i in range(n):
+                        if row.get(i, 0) != ninv * pow(ipsi[i], j, q) % q:
+                            return 'intt prime %d: row %d, coefficient of input %d is %d, not n^-1 * psi_%d^-%d' % (
+                                k + 1, j, i, row.get(i, 0), i, j), nchk
+            else:
+                for j, row in zip(js, rows):
+                    psi = row.get(1, 0)
+                    if psi * ipsi[j] % q != 1:
+                        return 'ntt prime %d: output %d evaluates at %d, the inverse transform assumes %d' % (
+                            k + 1, j, psi, pow(ipsi[j], -1, q)), nchk
+                    pw = 1
+                    for i in range(n):
+                        if row.get(i, 0) != pw:
+                            return 'ntt prime %d: output %d, coefficient of x_%d is %d, not psi^%d = %d' % (
+                                k + 1, j, i, row.get(i, 0), i, pw), nchk
+                        pw = pw * psi % q
+    return None, nchk
+
+
+def _sampled_job(n):
+    import sys
+    import threading
+    out = {}
+
+    def work():
+        try:
+            out['r'] = sampled_rows(ctx.lib(), primes(), n) + (None,)
+        except (Unsupported, NeedEnum) as e:
+            out['r'] = (None, 0, str(e))
+        except Exception as e:  # noqa
+            out['r'] = (None, 0, 'internal error: %r' % (e,))
+
+    sys.setrecursionlimit(500000)
+    threading.stack_size(512 * 1024 * 1024)
+    t = threading.Thread(target=work)
+    t.start()
+    t.join()
+    return out.get('r', (None, 0, 'worker died'))
+
+
+def large_dimensions(R, tier):
+    from concurrent.futures import ProcessPoolExecutor
+    ns = [128, 1024, 2048] if tier == 'quick' else [1024, 2048, 4096, 8192]
+    nchk = 0
+    with ProcessPoolExecutor(max_workers=min(4, len(ns))) as ex:
+        results = list(ex.map(_sampled_job, ns))
+    for n, (err, cnt, broke) in zip(ns, results):
+        subj = 'q120 ntt/intt n=%d' % n
+        nchk += cnt
+        if broke:
+            R.broke('sampled rows n=%d: %s' % (n, broke))
+        elif err:
+            R.ob('sampled-rows-of-large-transforms-are-the-evaluation-map-and-its-inverse', subj, 'refuted', detail=err,
+                 key='q120_ntt:sampled:n=%d' % n, witness={'n': n})
+        else:
+            R.ob('sampled-rows-of-large-transforms-are-the-evaluation-map-and-its-inverse', subj, 'holds',
+                 detail='%d rows (9 outputs x 4 primes x 2 directions)' % cnt)
+    return nchk
+
+
 def constants(L, R, qs):
     """E: sign-offset and CRT constants"""
     import os
@@ -250,12 +364,14 @@ def run(tier):
     n1 = ntt_algebra(L, R, qs, tier)
     constants(L, R, qs)
     n2 = module_level(L, R, tier)
-    R.evaluations = n1 + n2
+    n3 = large_dimensions(R, tier)
+    R.floor('sampled rows of large transforms', n3, 200)
+    R.evaluations = n1 + n2 + n3
     R.floor('matrix rows / round-trip lanes checked modulo a prime', n1, 900)
     R.floor('NTT120 module instantiations', n2, 200)
     R.extra['primes'] = qs
     R.rules.append('obligation = (clause, n) for the transform algebra; (constant) ; (module function)')
     R.assumptions += ['bit-splitting identities are integer identities, applicable because clause D shows no wrap on the same DAG',
-                      'n above the box is not covered algebraically (memory contract and table bounds: C11)']
+                      'above the full-matrix box the rows are sampled (clause S), not all checked']
     return R.finish('E4 expressions of ntt and ntt+intt rewritten to linear forms over Z/q (all lane values at once); evaluation-map '
                     'structure of the matrix; E5 wrap-freedom of the same DAG; constant identities; NTT120 module limb semantics.')
